@@ -26,8 +26,6 @@ NA = {
 }
 
 PENDING = {
-    "C03": "claimed by design (DESIGN.md section 3) but its simulator world is not built yet in this commit; will move to checks when it is.",
-    "C11": "claimed by design (DESIGN.md section 5) but its simulator world is not built yet in this commit; will move to checks when it is.",
 }
 
 CHECKS = {
